@@ -438,9 +438,11 @@ class Hist:
             self.written.append(w)
 
     # -- read ---------------------------------------------------------------
-    def call_read(self, op, slash):
+    def call_read(self, op, slash, param_override=None):
         param, dk = layout_param(self.impl.root, op["layout"], slash,
                                  op.get("restart"))
+        if param_override:
+            param.update(param_override)
         param0 = dict(param)
         kw = {}
         it_arg = None if op["it"] is None else list(op["it"])
@@ -509,6 +511,25 @@ class Hist:
                     failures_without_slash=sorted(
                         {d for d, _ in out} - d2)))]
                 verified = ver2
+        if op["layout"] == "et" and not op["slash"]:
+            # hand-written ET-style dicts whose 'simpath' lacks the trailing
+            # separator: (a) the separator carried by 'simname' instead (same
+            # directory), (b) plainly missing (another directory; whatever
+            # the call does there, it must not touch the caller's dict)
+            note.cls("read:et-simpath-no-slash")
+            root = self.impl.root
+            r3, _, out3 = self.call_read(op, True, dict(simpath=root,
+                                                        simname="/sim"))
+            out += [(d, o) for d, o in out3 if "mutates" in d]
+            if r3 is not None and r is not None and not same(
+                    {k: list(v) if not isinstance(v, np.ndarray) else v
+                     for k, v in r3.items()},
+                    {k: list(v) if not isinstance(v, np.ndarray) else v
+                     for k, v in r.items()}):
+                out.append(("read:et-simpath-separator-in-simname-differs",
+                            dict(it=req, vars=vreq)))
+            _, _, out4 = self.call_read(op, True, dict(simpath=root))
+            out += [(d, o) for d, o in out4 if "mutates" in d]
         for d, o in out:
             note.fail(d, o)
         special = (not slash) or (not vreq) or "t" in vreq or "it" in vreq
